@@ -186,6 +186,7 @@ func (s *simscreen) drawCell(x, y int) int {
 	if x > s.physw-width {
 		simc.Runes = []rune{' '}
 		simc.Bytes = []byte{' '}
+		s.back.SetDirty(x, y, false)
 		return width
 	}
 
